@@ -124,6 +124,14 @@ func runC10(k int, rng *Rng) CaseResult {
 		if wasDirty && !dirty {
 			flushesSeen++
 		}
+		// the two counters measure *continuous* lateness: a directory seen up to date between two
+		// iterations (FlushAll, a Create that flushes, a threshold flush) starts a new period
+		if st.dirty == 0 && st.ghost == "" && st.schemaOK {
+			dirtyTicks = 0
+		}
+		if st.dirty < cfg.Threshold {
+			overThreshold = 0
+		}
 		wasDirty = dirty
 		stats.Max("max_pending_observed", int64(maxPending))
 	}
